@@ -21,6 +21,21 @@ func init() { runtime.LockOSThread() }
 // after is called after every piece handed over (may be nil).
 func perform(kind, dst string, mode uint32, pieces []int, cbFail int, after func(i int)) error {
 	switch kind {
+	case "baseline": // plain os calls, independent of the code under test: teaches the tracer names and offsets
+		f, err := os.OpenFile(dst+".b", os.O_RDWR|os.O_CREATE|os.O_EXCL, os.FileMode(mode))
+		if err != nil {
+			return err
+		}
+		if _, err = f.Write([]byte("x")); err != nil {
+			return err
+		}
+		if err = f.Close(); err != nil {
+			return err
+		}
+		if err = os.Rename(dst+".b", dst); err != nil {
+			return err
+		}
+		return os.Remove(dst)
 	case "wf":
 		return safe.WriteFileWithMode(dst, func(w io.Writer) error {
 			off := 0
